@@ -505,6 +505,12 @@ impl WorkerTree {
     }
 
     fn insert_source(&mut self, path: PathBuf, output: Option<PathBuf>) {
+        // a source that comes back (removed then created again before the next pass) is
+        // written again: its output must not be deleted by the pending cleanup
+        if let Some(output) = output.as_ref() {
+            self.remove_files.retain(|pending| pending != output);
+        }
+
         let node_index = self.graph.add_node(if let Some(output) = output {
             WorkItem::new(path.clone(), output)
         } else {
